@@ -26,7 +26,7 @@ if wave == "d":
 print(f"""You are helping to test a verification tool by playing the adversary. You have your own scratch git worktree of a Rust library
 (zertyz/reactive-mutiny: async reactive event library with Uni/Multi channels over custom lock-free queues, pool allocators, OgreArc refcounting,
 an mmap log channel and stream executors) at {wt}. Work ONLY inside {wt} and {wt}-out. Never read or write /repo or /verif.
-There is no network: always pass --offline to cargo (CARGO_NET_OFFLINE=true). The worktree has a pre-seeded target/ dir so builds are incremental.
+There is no network: always pass --offline to cargo (CARGO_NET_OFFLINE=true). Do NOT use `git stash` (the stash is shared between all worktrees and other agents use it too): keep your change as a patch file and use `git apply` / `git apply -R`. The worktree has a pre-seeded target/ dir so builds are incremental.
 
 Here is one semantic property that the library is supposed to satisfy (JSON record: statement, quantifier, why tests can't settle it, code anchors):
 
